@@ -62,7 +62,8 @@ def has_nan(v):
     return False
 
 
-PLAIN_KINDS = ["complete", "complete", "partial", "partial", "partial", "near", "perturb", "extra-keys"]
+PLAIN_KINDS = ["complete", "complete", "partial", "partial", "partial", "near", "perturb", "extra-keys",
+               "dict-subclass"]
 HOSTILE_KINDS = PLAIN_KINDS + ["zoo", "zoo", "ellipsis", "junk"]
 
 
@@ -117,6 +118,9 @@ def subst_case(draw, kinds=PLAIN_KINDS, sat=True, depth_choices=(0, 1, 1, 2, 2, 
             v, _ = draw(values.perturb(full))
         elif kind == "extra-keys":
             v = add_extra_keys(draw, project(draw, full, p=6), draw(st.integers(1, 2)))
+        elif kind == "dict-subclass":
+            # a partial value whose dicts are instances of plain dict subclasses (defaultdict, Counter-like...)
+            v = values.wrap_dicts(draw, project(draw, full, p=2))
         elif kind == "extra-keys-sparse":
             v = add_extra_keys(draw, project(draw, full, p=1), 1)
         elif kind == "zoo":
